@@ -20,7 +20,7 @@ import (
 	"github.com/getkin/kin-openapi/routers/legacy"
 )
 
-const Spec = `{"openapi":"3.0.3","info":{"title":"t","version":"1"},"paths":{"/r":{
+const Spec = `{"openapi":"3.0.3","info":{"title":"t","version":"1"},"servers":[{"url":"http://h.example"},{"url":"http://beta.example/v1"}],"paths":{"/r":{
  "get":{"parameters":[{"name":"q","in":"query","required":true,"schema":{"type":"string","pattern":"^[a-z]+[0-9]$"}}],
         "responses":{"200":{"description":"ok","content":{"application/json":{"schema":{"$ref":"#/components/schemas/Out"}}}}}},
  "post":{"requestBody":{"required":true,"content":{"application/json":{"schema":{"$ref":"#/components/schemas/In"}}}},
@@ -99,6 +99,9 @@ func routeAndValidate(s *Shared, router routers.Router, method, target, body str
 	if route.Method != method {
 		v += fmt.Sprintf(" (route.Method=%s)", route.Method)
 	}
+	if route.Server != nil {
+		v += " server=" + route.Server.URL // which of the document's servers the route reports
+	}
 	if req.Body != nil && body != "" {
 		b, _ := io.ReadAll(req.Body)
 		v += " forwarded=" + string(b)
@@ -135,7 +138,13 @@ var Ops = map[string]Op{
 		return routeAndValidate(s, s.Gorilla, "POST", "http://h.example/r", `{"name":"ABC","tags":["x","x"]}`, b)
 	}},
 	"POST-legacy": {"POST-legacy", func(s *Shared, b func()) string {
-		return routeAndValidate(s, s.Legacy, "POST", "/r", `{"name":"abc"}`, b)
+		return routeAndValidate(s, s.Legacy, "POST", "http://h.example/r", `{"name":"abc"}`, b)
+	}},
+	"POST-legacy-beta": {"POST-legacy-beta", func(s *Shared, b func()) string {
+		return routeAndValidate(s, s.Legacy, "POST", "http://beta.example/v1/r", `{"name":"abc"}`, b)
+	}},
+	"GET-beta": {"GET-beta", func(s *Shared, b func()) string {
+		return routeAndValidate(s, s.Gorilla, "GET", "http://beta.example/v1/r?q=abc1", "", b)
 	}},
 	"VisitJSON": {"VisitJSON", func(s *Shared, b func()) string {
 		return "visit " + verdict(s.Schema.VisitJSON(map[string]any{"name": "abc", "tags": []any{"x", "x"}}))
